@@ -602,13 +602,13 @@ Qed.
 Definition run_lazy (shape : list Z) (k1 k2 : list aidx) : res arr :=
   li <- mk_lazy shape k1 [] 0 ;; getitem li (arange shape 0) k2.
 
-(* F23: li[::-1] raises although source[::-1] exists *)
+(* F30: li[::-1] raises although source[::-1] exists *)
 Lemma lazy_negative_step_refuted :
   run_lazy [5] [] [ASlice None None (Some (-1))] = Err
   /\ spec_getitem [5] (arange [5] 0) [] [] 0 [ASlice None None (Some (-1))] <> Err.
 Proof. split; [vm_compute; reflexivity|vm_compute; discriminate]. Qed.
 
-(* F24: LazyIndexer(x, keep=-1)[:] raises *)
+(* F31: LazyIndexer(x, keep=-1)[:] raises *)
 Lemma lazy_negative_stage1_int_refuted :
   run_lazy [5] [AInt (-1)] [] = Err /\ spec_getitem [5] (arange [5] 0) [AInt (-1)] [] 0 [] <> Err.
 Proof. split; [vm_compute; reflexivity|vm_compute; discriminate]. Qed.
